@@ -71,7 +71,9 @@ class SrvUnderTest(object):
         self.fx = dm.Fixture(registry(None), version=2.0)
         self.user_pool = None
         if kind == "pooled" and psize is not None:
-            self.user_pool = tp.ThreadPool(psize, 0, timeout=pool_timeout, logname=self.poolname)
+            # sizes 2 and 5 keep min_threads = max_threads: their workers only terminate if the server stops the pool
+            self.user_pool = tp.ThreadPool(psize, psize if (psize > 1 and pool_timeout >= 0.05) else 0,
+                                           timeout=pool_timeout, logname=self.poolname)
             self.user_pool.start()
         self.srv = servers.Srv(kind, family, self.fx, pool=self.user_pool)
         self.gate = gate
